@@ -554,10 +554,15 @@ def _mk(base, f, sh, i):
     return c
 
 
+def _formulas(tier):
+    # quick: no variables (sat / unsat), three variables, twelve variables
+    return ENUM_FORMULAS if tier != 'quick' else [ENUM_FORMULAS[0], ENUM_FORMULAS[1], ENUM_FORMULAS[3], BIG]
+
+
 def enum_named(tier):
     i = 0
     for name in _tree_names():
-        for f in ENUM_FORMULAS:
+        for f in _formulas(tier):
             for sh in ENUM_SHAPES:
                 i += 1
                 yield _mk({'mode': 'named', 'solver': name, 'installed': {name: 'ok'}}, f, sh, i)
@@ -570,7 +575,7 @@ def enum_named(tier):
 def enum_sameas(tier):
     i = 0
     for name in _tree_names():
-        for f in ENUM_FORMULAS:
+        for f in _formulas(tier):
             for sh in ENUM_SHAPES[:4]:
                 i += 1
                 exe = EXES[i % len(EXES)]
@@ -591,7 +596,7 @@ def enum_sameas(tier):
 def enum_auto(tier):
     names = _tree_names()
     i = 0
-    for f in (ENUM_FORMULAS[0], ENUM_FORMULAS[3], ENUM_FORMULAS[5], BIG):
+    for f in (ENUM_FORMULAS[0], ENUM_FORMULAS[3], ENUM_FORMULAS[5], BIG)[:2 if tier == 'quick' else 4]:
         yield _mk({'mode': 'auto', 'installed': {}}, f, ENUM_SHAPES[0], 0)
         yield _mk({'mode': 'auto', 'installed': {'mysolver': 'ok'}}, f, ENUM_SHAPES[0], 0)
         for a in names:
@@ -608,7 +613,7 @@ def enum_auto(tier):
 def enum_tmp(tier):
     i = 0
     for name in _tree_names():
-        for f in (ENUM_FORMULAS[1], ENUM_FORMULAS[3]):
+        for f in (ENUM_FORMULAS[3], ENUM_FORMULAS[1])[:1 if tier == 'quick' else 2]:
             for sh in ENUM_SHAPES:
                 i += 1
                 yield _mk({'mode': 'named', 'solver': name, 'installed': {name: 'ok'}}, f, sh, i)
@@ -628,24 +633,24 @@ _SHAPE_LABELS = ['vlines=1', 'vlines=2', 'vlines=3', 'vlines=4', 'zero-same', 'z
 
 SUBCHECKS = [
     SubCheck('named', run_verdict, strategy=strat_named, enumerate_cases=enum_named,
-             quick=640, thorough=48000,
-             rule="cmd='<supported name> [options]': every name of the interface table x 7 fixed formulas x 6 answer shapes enumerated, plus generated CNFs (0..12 variables, empty clauses, unused variables, variable blocks) x generated answer shapes (model over 1..4 'v' lines, terminating 0 same line/own line/absent, 's' line before/middle/after, comments and blank lines interleaved, model printed in any order, exit 10/20 or 0, no 's' line, 's UNKNOWN', crash; minisat: SAT/UNSAT/INDET/empty result) x solver present/missing/not executable/not a program, decoy solvers installed; oracle: captured DIMACS = formula (strict reader), options forwarded, (True, model sorted by variable) / (False, None) / RuntimeError, is_satisfiable agrees; non-trivial: unsatisfiable answer, or >=2 variables and model over >=2 'v' lines (or the minisat result file)",
+             quick=400, thorough=24000,
+             rule="cmd='<supported name> [options]': every name of the interface table x 7 fixed formulas (quick: 4) x 6 answer shapes enumerated, plus generated CNFs (0..12 variables, empty clauses, unused variables, variable blocks) x generated answer shapes (model over 1..4 'v' lines, terminating 0 same line/own line/absent, 's' line before/middle/after, comments and blank lines interleaved, model printed in any order, exit 10/20 or 0, no 's' line, 's UNKNOWN', crash; minisat: SAT/UNSAT/INDET/empty result) x solver present/missing/not executable/not a program, decoy solvers installed; oracle: captured DIMACS = formula (strict reader), options forwarded, (True, model sorted by variable) / (False, None) / RuntimeError, is_satisfiable agrees; non-trivial: unsatisfiable answer, or >=2 variables and model over >=2 'v' lines (or the minisat result file)",
              required_labels=_SOLVER_LABELS + _CONV + _SHAPE_LABELS + ['not-installed', 'not-executable', 'flags',
                                                                       'no-answer:filein-fileout', 'no-answer:filein-stdout',
                                                                       'no-answer:stdin-stdout', 'gray-glucose']),
     SubCheck('sameas', run_verdict, strategy=strat_sameas, enumerate_cases=enum_sameas,
-             quick=480, thorough=32000,
+             quick=320, thorough=16000,
              rule="cmd='x [options]' with sameas=<every supported name> (x an unsupported program speaking that solver's convention, or another supported name overridden by sameas); unsupported program without sameas -> RuntimeError; unknown sameas (with cmd, with cmd=None) -> ValueError; same formulas/answer shapes/oracle as 'named'",
              required_labels=['sameas:' + s for s in NAMES] + _CONV + ['sameas', 'unsupported', 'badsameas', 'sameas-overrides', 'sat', 'unsat',
                                                           'zero-variables', 'not-installed', 'no-answer', 'flags',
                                                           'vlines=2', 'vlines=3', 'model-unordered']),
     SubCheck('auto', run_verdict, strategy=strat_auto, enumerate_cases=enum_auto,
-             quick=480, thorough=32000,
+             quick=320, thorough=16000,
              rule="cmd=None with a generated set of programs in bin/ (each supported name missing/ok/not executable/not a program, sometimes an unsupported program too; every single solver and every adjacent pair enumerated); oracle: exactly one run, of the first usable solver in supported_satsolvers() order, speaking its own convention; none usable -> RuntimeError",
              required_labels=_SOLVER_LABELS + _CONV + ['auto', 'auto-skips-missing', 'auto-several-installed', 'not-installed',
                                                       'no-answer', 'sat', 'unsat', 'zero-variables']),
     SubCheck('tempfiles', run_tmp, strategy=strat_any, enumerate_cases=enum_tmp,
-             quick=640, thorough=48000,
+             quick=400, thorough=24000,
              rule="union of the three generators above; oracle: after solve() and after is_satisfiable() the private TMPDIR (tempfile.tempdir) of the case is empty, whatever the outcome (verdict, RuntimeError, ValueError); non-trivial: a solver was actually run",
              required_labels=['files-passed=0', 'files-passed=1', 'files-passed=2', 'after-RuntimeError', 'after-ValueError',
                               'no-answer:filein-fileout', 'no-answer:filein-stdout', 'no-answer:stdin-stdout',
